@@ -262,48 +262,37 @@ Proof.
   now apply (Permutation_in _ (sort_by_perm ci _)) in H.
 Qed.
 
-Lemma listed_repr svcs r : In r (all_rpcs svcs) -> exists r', In r' (listed_rpcs svcs) /\ ci r' = ci r.
+Lemma listed_repr svcs r : In r (all_rpcs svcs) -> exists r', In r' (listed_rpcs svcs) /\ r_name r' = r_name r.
 Proof.
   intro H. unfold listed_rpcs, unique_by. apply unique_by_acc_repr; [|reflexivity].
   now apply (Permutation_in _ (Permutation_sym (sort_by_perm ci _))).
 Qed.
 
-(* every RPC name has an entry listing all request fields of an RPC of that name (required first, see
-   fixup_order_spec) provided RPC names that agree up to letter case are equal *)
+(* every RPC name has an entry listing all request fields of an RPC of that name (required first, see fixup_order_spec) —
+   names that differ only by letter case included (unique compares case-sensitively) *)
 Lemma fixup_covers add_iam svcs :
-  (forall r1 r2, In r1 (all_rpcs svcs) -> In r2 (all_rpcs svcs) -> ci r1 = ci r2 -> r_name r1 = r_name r2) ->
   forall r, In r (all_rpcs svcs) ->
   exists r', In r' (all_rpcs svcs) /\ r_name r' = r_name r /\
              In (snake (r_name r), params_of r') (method_to_params add_iam svcs).
 Proof.
-  intros Hci r Hr. destruct (listed_repr svcs r Hr) as (r' & Hl & Hk).
-  pose proof (listed_incl _ _ Hl) as Hr'. exists r'. split; [assumption|].
-  assert (En : r_name r' = r_name r) by (apply Hci; assumption). split; [assumption|].
+  intros r Hr. destruct (listed_repr svcs r Hr) as (r' & Hl & En).
+  pose proof (listed_incl _ _ Hl) as Hr'. exists r'. split; [assumption|]. split; [assumption|].
   unfold method_to_params. apply in_or_app. left. apply in_map_iff. exists r'. rewrite En. auto.
 Qed.
 
-(* one entry per letter-case class of RPC names, and only RPCs of the API are listed *)
+(* one entry per RPC name, and only RPCs of the API are listed *)
 Lemma fixup_listed_once svcs :
-  NoDup (map ci (listed_rpcs svcs)) /\ (forall r, In r (listed_rpcs svcs) -> In r (all_rpcs svcs)).
+  NoDup (map r_name (listed_rpcs svcs)) /\ (forall r, In r (listed_rpcs svcs) -> In r (all_rpcs svcs)).
 Proof.
-  split; [apply (unique_by_acc_nodup ci) | apply listed_incl].
+  split; [apply (unique_by_acc_nodup r_name) | apply listed_incl].
 Qed.
 
-(* the faithful model does NOT list every RPC when two names differ only by letter case (jinja2 sort/unique
-   compare case-insensitively by default): GetBook / Getbook are two different client methods
-   (get_book, getbook), the table has no key "getbook" *)
+(* the former witness of the case-insensitive unique defect: GetBook / Getbook both have their entry *)
 Definition witness_svcs : list svc :=
   [mkS "Lib" [mkR "GetBook" false true [mkF "name" true]; mkR "Getbook" false true [mkF "x" false]]].
-Lemma fixup_covers_refuted :
-  exists svcs r, In r (all_rpcs svcs) /\
-    NoDup (map (fun r => snake (r_name r)) (all_rpcs svcs)) /\
-    ~ In (snake (r_name r)) (map fst (method_to_params false svcs)).
-Proof.
-  exists witness_svcs, (mkR "Getbook" false true [mkF "x" false]). split; [|split].
-  - vm_compute. auto.
-  - vm_compute. repeat constructor; simpl; intuition discriminate.
-  - vm_compute. intuition discriminate.
-Qed.
+Lemma fixup_case_example :
+  method_to_params false witness_svcs = [("get_book", ["name"]); ("getbook", ["x"])].
+Proof. vm_compute. reflexivity. Qed.
 
 (* non-vacuity of the hypotheses above on a non-trivial API (keyword-named, internal, reserved-word field) *)
 Definition example_svcs : list svc :=
@@ -312,18 +301,14 @@ Definition example_svcs : list svc :=
    mkS "Aux" [mkR "Zed" false true []]].
 Lemma example_ok :
   NoDup (map s_name example_svcs) /\ (forall s, In s example_svcs -> NoDup (map r_name (s_rpcs s))) /\
-  (forall r1 r2, In r1 (all_rpcs example_svcs) -> In r2 (all_rpcs example_svcs) -> ci r1 = ci r2 -> r_name r1 = r_name r2) /\
   map (fun e => (e_client e, e_method e)) (metadata_entries ["rest"] example_svcs)
     = [("AuxClient", "zed"); ("BaseLibClient", "get_book"); ("BaseLibClient", "_import_"); ("BaseLibClient", "class_")] /\
   method_to_params false example_svcs
     = [("class", ["class"]); ("get_book", ["alpha"; "beta"; "zeta"; "class_"]); ("import", ["name"]); ("zed", [])].
 Proof.
-  split; [|split; [|split; [|split]]].
+  split; [|split; [|split]].
   - vm_compute. repeat constructor; simpl; intuition discriminate.
   - intros s [<-|[<-|[]]]; vm_compute; repeat constructor; simpl; intuition discriminate.
-  - intros r1 r2 H1 H2. vm_compute in H1, H2.
-    repeat (destruct H1 as [<-|H1]); try contradiction; repeat (destruct H2 as [<-|H2]); try contradiction;
-      vm_compute; intro E; try reflexivity; discriminate.
   - vm_compute. reflexivity.
   - vm_compute. reflexivity.
 Qed.
